@@ -496,10 +496,7 @@ pub fn tame_zooms(bases: u64, items: u64, o: &mut Opts, budget: u64) {
                 }
                 *initial *= 4;
             }
-            // the writer computes initial * 4^k in u32 for k < max: stay below the overflow
-            while *max > 0 && ((*initial as u64) << (2 * (*max as u64 - 1).min(31))) > (u32::MAX as u64) / 4 {
-                *max -= 1;
-            }
+            // (the automatic list initial * 4^k may run past u32: the writer has to stop there by itself)
         }
         ZoomSpec::Manual(v) => {
             loop {
